@@ -94,6 +94,8 @@ func c03Run(f []string) string {
 		return c03AnalyzeSpecRun(f)
 	case "tbl":
 		return c03TblRun(f)
+	case "cmd":
+		return c03CmdRun(f)
 	case "csv":
 		rows := c03DecRows(f[1])
 		var b c03Buf
@@ -260,6 +262,13 @@ func c03Gen(r *Rand, tier string) []string {
 			out = append(out, c03AnalyzeSpecCase(r))
 		}
 	}
+	nCmd := 500
+	if tier == "thorough" {
+		nCmd = 12000
+	}
+	for i := 0; i < nCmd; i++ {
+		out = append(out, c03CmdCase(r))
+	}
 	nTbl := 1500
 	if tier == "thorough" {
 		nTbl = 40000
@@ -327,6 +336,8 @@ func c03Stats(cases []string) map[string]int {
 			st["op.analyzeSpec"]++
 		case "tbl":
 			c03TblStats(f, st)
+		case "cmd":
+			c03CmdStats(f, st)
 		case "csv":
 			st["op.csv"]++
 			rows := c03DecRows(f[1])
@@ -390,5 +401,5 @@ var c03Corpus = []string{
 }
 
 func init() {
-	Register("C03", &Prop{Gen: c03Gen, Run: c03Run, Stats: c03Stats, Corpus: append(append(append(append([]string{}, c03Corpus...), c03ReduceCorpus...), c03AnalyzeCorpus...), c03TblCorpus...)})
+	Register("C03", &Prop{Gen: c03Gen, Run: c03Run, Stats: c03Stats, Corpus: append(append(append(append(append([]string{}, c03Corpus...), c03ReduceCorpus...), c03AnalyzeCorpus...), c03TblCorpus...), c03CmdCorpus...)})
 }
